@@ -51,8 +51,8 @@ const char *rsv_class_names[RSV_NCLS] = {"ops", "events", "checkpoints", "rollba
 #define ARENA (1U << B_TOTAL_EXP)
 #define MINBLK (1U << B_BLOCK_EXP)
 #define MAXBLK 96
-#define MAXEV 48
-#define MAXOPS 400
+#define MAXEV 320
+#define MAXOPS 1200
 
 enum opk { OP_MALLOC, OP_CALLOC, OP_REALLOC, OP_FREE, OP_WRITE, OP_RNG, OP_BAD_MALLOC, OP_BAD_CALLOC, OP_REUSE_PROBE };
 struct op {
@@ -443,14 +443,18 @@ int rsv_case(const uint8_t *tape, size_t len, struct rsv_result *res)
 	int hist_len = 0;     /* current history length (entries), in current coordinates */
 	int first_legal = 1;  /* oldest position a rollback may target: position of the oldest kept checkpoint */
 	int max_ops = 20 + (int)t_choice(t, 100);
+	/* one history in eight starts with a long quiet stretch (no tape bytes: derived from max_ops): 140..199 one-draw events,
+	 * each followed by a checkpoint, nothing collected or rolled back meanwhile - checkpoint logs of well over a hundred
+	 * entries, which the generated fossil collections and rollbacks that follow then cut and re-base */
+	int burst_left = max_ops % 8 == 3 ? 140 + (max_ops * 7) % 60 : 0;
 	int cur_first_op = 0;
 	int rb_between_seen = 0, nontriv05 = 0, nontriv13 = 0, fossil_between_seen = 0, had_fossil = 0;
 	int last_rb_target = -1;
 	size_t cap_bytes = (size_t)ARENA * 6;
 	int total_steps = 0;
 
-	while(res->verdict != RSV_FAIL && total_steps++ < 260 && nops < MAXOPS - 2 && nev < MAXEV - 1) {
-		unsigned c = t_left(t) ? t_choice(t, 32) : 31; /* an exhausted tape closes the history */
+	while(res->verdict != RSV_FAIL && total_steps++ < 260 + 2 * 200 && nops < MAXOPS - 2 && nev < MAXEV - 1) {
+		unsigned c = burst_left ? 21 : t_left(t) ? t_choice(t, 32) : 31; /* an exhausted tape closes the history */
 		struct op o;
 		memset(&o, 0, sizeof o);
 		int done = 0;
@@ -515,7 +519,7 @@ int rsv_case(const uint8_t *tape, size_t len, struct rsv_result *res)
 			apply(&o, 0);
 			if(res->verdict != RSV_FAIL && (live_bytes <= 4 * ARENA || !(nops & 7)))
 				verify_all("after an operation");
-			if(nops - cur_first_op < max_ops / 4 + 2)
+			if(!burst_left && nops - cur_first_op < max_ops / 4 + 2)
 				continue;
 			/* long events are closed */
 		}
@@ -523,7 +527,7 @@ int rsv_case(const uint8_t *tape, size_t len, struct rsv_result *res)
 			break;
 		/* ---- event boundary ---- */
 		if(nops > cur_first_op || !init_done || t_prob(t, 128)) {
-			int k = 1 + (int)t_choice(t, 3);
+			int k = burst_left ? 1 : 1 + (int)t_choice(t, 3);
 			hist_len += k;
 			ev_first_op[nev] = cur_first_op;
 			ev_first_op[nev + 1] = nops;
@@ -531,7 +535,7 @@ int rsv_case(const uint8_t *tape, size_t len, struct rsv_result *res)
 			cur_first_op = nops;
 			verify_all("at an event boundary");
 			snaps[nev] = snap_take();
-			int take = !init_done || t_prob(t, 90);
+			int take = !init_done || burst_left || t_prob(t, 90);
 			init_done = 1;
 			is_ckpt[nev] = take;
 			if(take) {
@@ -550,7 +554,9 @@ int rsv_case(const uint8_t *tape, size_t len, struct rsv_result *res)
 		if(res->verdict == RSV_FAIL)
 			break;
 		/* ---- between events: rollback / fossil ---- */
-		unsigned a = t_choice(t, 8);
+		unsigned a = burst_left ? 0 : t_choice(t, 8);
+		if(burst_left)
+			burst_left--;
 		if(a >= 5 && nev >= 2) { /* rollback: at least the last event is undone */
 			int cand[MAXEV], nc = 0;
 			for(int e = 0; e < nev - 1; e++)
